@@ -115,6 +115,12 @@ impl Ctx {
             i += 1;
         }
         crate::install_hook();
+        // reduced-bound runs (Miri substrate): lengths above --maxn are skipped by the engines' length loops
+        if only.is_none() {
+            if let Some(m) = extra.get("maxn").and_then(|s| s.parse::<usize>().ok()) {
+                crate::MAXN.store(m, std::sync::atomic::Ordering::Relaxed);
+            }
+        }
         Ctx {
             mode,
             tier,
